@@ -10,7 +10,7 @@ import builtins
 from typing import Dict, List, Optional, Tuple
 
 from .index import Program, FuncInfo, norm
-from .typesys import Types
+from .typesys import Types, S
 from . import paths
 
 Chain = Tuple[Tuple[str, str, str], ...]   # ((func qname, file:line, construct text), ...)
@@ -115,7 +115,7 @@ class Guards:
             return self.token_of_class_expr(e.func, fi)
         ts = self.t.type_of(e, fi)
         out = []
-        for t in ts:
+        for t in S(ts):
             if t[0] == "clsobj":
                 out.append(t[1])
             elif t[0] == "extobj":
@@ -287,7 +287,7 @@ class Guards:
             elif isinstance(n, (ast.With, ast.AsyncWith)):
                 for it in n.items:
                     toks = {}
-                    for t in self.t.type_of(it.context_expr, fi):
+                    for t in S(self.t.type_of(it.context_expr, fi)):
                         if t[0] == "inst":
                             c = self.p.classes.get(t[1])
                             for meth in ("__enter__", "__exit__"):
